@@ -7,8 +7,20 @@
 //! type parameters of a generic `impl<T>` kept abstract (`Ty::Var`, the Lean definition is polymorphic), trait constants
 //! (`T::ZERO`, `Size::MAX_CONTENT`, `auto::<Self>()`), the length constructors `X(CompactLength::length(v))` ↦ `.length v` … and,
 //! per function and named in the generated doc comment, `usize - usize` as truncated subtraction.
+//! Third batch (leaf.rs, compute_root_layout, compute_cached_layout): closure parameters — a pure one (`F: Fn(T) -> R`, `impl FnOnce(f32) -> f32`)
+//! is a Lean function parameter (`Ty::Fn`; `Size::map`, `map_definite_value`), called as `f(x)`; function-valued arguments may be closure
+//! literals, `Some`, constructors or paths of translated functions (`AvailableSpace::from`); abstract type variables of a signature are
+//! unified at the call site; `style: &impl CoreStyle` is `Style α` restricted to that trait's getters; struct patterns (`let T { a, b, .. } = e`
+//! as projections, `T { a: Some(x), .. }` in `if let` / `match`); `if let` in statement position; `matches!(e, pat if guard)`; `x.f += e`;
+//! `a + b` on the geometry types through their translated `impl Add`; `drop(local)`; the logging macros of util/debug.rs (checked no-ops).
+//! INTERACTION FORM (`emit::ProgPlan`, stmt.rs): in a function with a `tree` parameter or an opaque closure parameter, `let x = tree.m(..);`,
+//! `tree.m(..);`, a tail `tree.m(..)` and the same for the closure become nodes of a generated program type (arguments, continuation), a
+//! provided trait method or a closure that takes the tree becomes `bind`; `return e` is `ret e`; an argument that is a `match` with
+//! `unreachable!()` arms is evaluated first as an `Option` (`none` ↦ `Prog.unreachable`). An interaction anywhere else is an error.
 //! Everything else is an error; the caller decides whether that is fatal (required function) or a comment.
 use crate::lean::{ident, AdtKind, FnSig, Ty, World, L};
+#[allow(unused_imports)]
+use crate::emit::EffectSig;
 use crate::util::CfgEnv;
 use std::collections::HashMap;
 use syn::{BinOp, Expr, Lit, Pat, Stmt, UnOp};
@@ -49,6 +61,12 @@ pub struct Ctx<'a> {
     pub used_trunc_sub: bool,
     /// the local that plays the role of `self` for the state-passing return (a `&mut` first parameter of a free function)
     pub mut_param: Option<String>,
+    /// interaction form (see `emit::ProgPlan`): the function body is translated into an interaction program
+    pub prog: Option<crate::emit::ProgPlan>,
+    /// locals of type `Style` that the Rust sees through one style trait (`style: &impl CoreStyle`): Rust name ↦ trait
+    pub views: HashMap<String, String>,
+    /// closure parameters that are sub-programs (they take the tree first): Rust name ↦ (Lean name, argument types, result type)
+    pub sub_programs: HashMap<String, (String, Vec<Ty>, Ty)>,
 }
 
 pub fn expr_attrs_pub(e: &Expr) -> &[syn::Attribute] {
@@ -96,6 +114,9 @@ impl<'a> Ctx<'a> {
             trunc_sub: false,
             used_trunc_sub: false,
             mut_param: None,
+            prog: None,
+            views: HashMap::new(),
+            sub_programs: HashMap::new(),
         }
     }
 
@@ -302,21 +323,42 @@ impl<'a> Ctx<'a> {
             Expr::MethodCall(m) => self.method_call(m, expect),
             Expr::Macro(m) => {
                 if m.mac.path.is_ident("matches") {
-                    let (scrut, pat) = m
+                    let scrut = m
                         .mac
                         .parse_body_with(|input: syn::parse::ParseStream| {
                             let e: Expr = input.parse()?;
                             let _: syn::Token![,] = input.parse()?;
                             let p = Pat::parse_multi_with_leading_vert(input)?;
-                            Ok((e, p))
+                            // `matches!(e, pat if guard)`
+                            let g: Option<Expr> = if input.peek(syn::Token![if]) {
+                                let _: syn::Token![if] = input.parse()?;
+                                Some(input.parse()?)
+                            } else {
+                                None
+                            };
+                            let _: Option<syn::Token![,]> = input.parse()?;
+                            Ok((e, p, g))
                         })
                         .map_err(|e| e.to_string())?;
+                    let (scrut, pat, guard) = scrut;
                     let (s, st) = self.expr(&scrut, &Ty::Unknown)?;
                     let saved = self.locals.clone();
-                    let alts = self.pat(&pat, &st, false)?;
+                    let alts = self.pat(&pat, &st, false);
+                    let hit = match (&alts, &guard) {
+                        (Ok(_), Some(g)) => match self.expr(g, &Ty::Bool) {
+                            Ok((gl, Ty::Bool)) => Ok(gl),
+                            Ok(_) => Err("the guard of `matches!` is not a bool".to_string()),
+                            Err(e) => Err(e),
+                        },
+                        _ => Ok(L::a("true")),
+                    };
                     self.locals = saved;
-                    let mut arms: Vec<(Vec<String>, L)> = alts.into_iter().map(|p| (vec![p], L::a("true"))).collect();
-                    arms.push((vec!["_".into()], L::a("false")));
+                    let (alts, hit) = (alts?, hit?);
+                    // the complement of `Some(x)` in an `Option` is written `none` (a two-constructor match, as one writes it by hand), anything else `_`
+                    let some_var = |p: &String| p.strip_prefix("(some ").and_then(|r| r.strip_suffix(')')).map(|v| !v.is_empty() && v.chars().all(|c| c.is_alphanumeric() || c == '_' || c == '\'')).unwrap_or(false);
+                    let complement = if matches!(st, Ty::Opt(_)) && alts.len() == 1 && some_var(&alts[0]) { "none" } else { "_" };
+                    let mut arms: Vec<(Vec<String>, L)> = alts.into_iter().map(|p| (vec![p], hit.clone())).collect();
+                    arms.push((vec![complement.into()], L::a("false")));
                     Ok((L::Match(vec![s], arms), Ty::Bool))
                 } else {
                     Err(format!("unsupported macro `{}`", quote::quote!(#m)))
@@ -517,6 +559,23 @@ impl<'a> Ctx<'a> {
             return Err(format!("operands of `{}` have different types {:?} / {:?}", quote::quote!(#b), lt, rt));
         }
         let bx = |x: L| Box::new(x);
+        // operator traits implemented for the geometry types (`impl Add<Rect<U>> for Rect<T>` …), translated as functions `add` / `sub`
+        if let (Ty::Adt(an, _), Some(op)) = (&lt, match b.op {
+            BinOp::Add(_) => Some("add"),
+            BinOp::Sub(_) => Some("sub"),
+            _ => None,
+        }) {
+            if let Some(sigs) = self.w.fns.get(&(an.clone(), op.to_string())) {
+                for sig in sigs {
+                    if let Some(st) = &sig.self_ty {
+                        if st.compatible(&lt) && sig.params.len() == 1 && sig.params[0].1.compatible(&rt) && !sig.prog {
+                            return Ok((L::App(sig.lean.clone(), vec![l, r]), sig.ret.clone()));
+                        }
+                    }
+                }
+            }
+            return Err(format!("operator `{op}` at type {:?} / {:?} is not a translated impl", lt, rt));
+        }
         match (&b.op, &lt) {
             (BinOp::Add(_), Ty::F32 | Ty::Nat) => Ok((L::Bin("+".into(), bx(l), bx(r)), lt)),
             (BinOp::Sub(_), Ty::F32) => Ok((L::Bin("-".into(), bx(l), bx(r)), lt)),
@@ -567,10 +626,36 @@ impl<'a> Ctx<'a> {
 
     // ------------------------------------------------------------------------------------------ calls
     fn args_of(&mut self, sig: &FnSig, args: &[&Expr], what: &str) -> R<Vec<L>> {
+        let mut sub = HashMap::new();
+        self.args_of_s(sig, args, what, &mut sub)
+    }
+
+    /// `|val, basis| tree.calc(val, basis)` (or `resolve_calc_value`): the `calc` resolver of the tree, passed on
+    fn is_tree_calc_closure(&self, e: &Expr) -> bool {
+        let tree = match self.prog.as_ref().and_then(|p| p.tree_param.clone()) {
+            Some(t) => t,
+            None => return false,
+        };
+        if let Expr::Closure(c) = strip(e) {
+            let ps: Vec<String> = c.inputs.iter().map(|p| quote::quote!(#p).to_string()).collect();
+            if ps.len() == 2 && ps.iter().all(|p| p.chars().all(|c| c.is_alphanumeric() || c == '_')) {
+                let body = quote::quote!(#c.body).to_string();
+                let _ = body;
+                let b = &c.body;
+                let got = quote::quote!(#b).to_string().replace(' ', "");
+                return got == format!("{tree}.calc({},{})", ps[0], ps[1]) || got == format!("{tree}.resolve_calc_value({},{})", ps[0], ps[1]);
+            }
+        }
+        false
+    }
+
+    /// arguments of a call of a translated function; `sub` instantiates the abstract type variables of its signature
+    fn args_of_s(&mut self, sig: &FnSig, args: &[&Expr], what: &str, sub: &mut HashMap<String, Ty>) -> R<Vec<L>> {
         let mut args: Vec<&Expr> = args.to_vec();
         for _ in 0..sig.dropped {
             match args.pop().map(strip) {
                 Some(Expr::Path(p)) if p.path.get_ident().map(|i| self.dropped.contains(&i.to_string())).unwrap_or(false) => {}
+                Some(e) if self.is_tree_calc_closure(e) => {}
                 _ => return Err(format!("call of {what}: the untranslated trailing argument is not passed through unchanged")),
             }
         }
@@ -579,13 +664,68 @@ impl<'a> Ctx<'a> {
         }
         let mut out = vec![];
         for (a, (_, pt)) in args.iter().zip(sig.params.iter()) {
-            let (l, t) = self.expr(a, pt)?;
-            if !pt.compatible(&t) {
+            let pt_i = pt.subst_vars(sub);
+            if let Ty::Fn(ps, r) = &pt_i {
+                let (l, rt) = self.fn_value(a, ps, &r.vars_to_unknown())?;
+                if !r.unify(&rt, sub) {
+                    return Err(format!("function argument returning {:?} where {what} expects {:?}", rt, r));
+                }
+                out.push(l);
+                continue;
+            }
+            let (l, t) = self.expr(a, &pt_i.vars_to_unknown())?;
+            if !pt.unify(&t, sub) {
                 return Err(format!("argument of type {:?} where {what} expects {:?}", t, pt));
             }
             out.push(l);
         }
         Ok(out)
+    }
+
+    /// a function-valued argument: a closure literal, `Some`, a constructor, a function-typed local, or the path of a translated
+    /// function (`AvailableSpace::from`: the parameter type selects the impl); returns the Lean function and its result type
+    pub(crate) fn fn_value(&mut self, e: &Expr, ptys: &[Ty], expect_ret: &Ty) -> R<(L, Ty)> {
+        let p = match strip(e) {
+            Expr::Closure(_) => return self.closure(e, ptys, expect_ret),
+            Expr::Path(p) => p,
+            _ => return Err(format!("unsupported function argument `{}`", quote::quote!(#e))),
+        };
+        let segs = path_segs(&p.path);
+        let name = segs.last().unwrap().clone();
+        if segs.len() == 1 {
+            if name == "Some" && ptys.len() == 1 {
+                return Ok((L::a("some"), Ty::opt(ptys[0].clone())));
+            }
+            if let Some((l, Ty::Fn(ps, r))) = self.locals.get(&name).cloned() {
+                if ps.len() == ptys.len() && ps.iter().zip(ptys).all(|(a, b)| a.compatible(b)) {
+                    return Ok((L::A(l), *r));
+                }
+            }
+            if let Some((l, t, vargs)) = self.variant_lookup(None, &name) {
+                if vargs.len() == ptys.len() && !vargs.is_empty() && vargs.iter().zip(ptys).all(|(a, b)| a.compatible(b)) {
+                    return Ok((L::A(l), t));
+                }
+            }
+            return Err(format!("unresolved function `{name}`"));
+        }
+        let tname = &segs[segs.len() - 2];
+        let t = self.type_of_segment(tname).ok_or(format!("function of unknown type `{tname}`"))?;
+        let head = t.head();
+        if let Some((l, vt, vargs)) = self.variant_lookup(Some(&head), &name) {
+            if vargs.len() == ptys.len() && !vargs.is_empty() && vargs.iter().zip(ptys).all(|(a, b)| a.compatible(b)) {
+                return Ok((L::A(l), vt));
+            }
+        }
+        if let Some(sigs) = self.w.fns.get(&(head.clone(), name.clone())) {
+            let fits: Vec<&FnSig> = sigs
+                .iter()
+                .filter(|s| s.self_ty.is_none() && !s.prog && s.dropped == 0 && s.params.len() == ptys.len() && s.params.iter().zip(ptys).all(|((_, a), b)| a.compatible(b)) && !ptys.iter().any(|t| t.has_unknown()))
+                .collect();
+            if fits.len() == 1 {
+                return Ok((L::A(fits[0].lean.clone()), fits[0].ret.clone()));
+            }
+        }
+        Err(format!("function argument `{}` does not name a translated function of the expected type", segs.join("::")))
     }
 
     fn apply_sig(&self, sig: &FnSig, args: Vec<L>) -> L {
@@ -605,6 +745,24 @@ impl<'a> Ctx<'a> {
         let name = segs.last().unwrap().clone();
         let args: Vec<&Expr> = c.args.iter().collect();
         if segs.len() == 1 {
+            if self.is_interaction_name(&name) {
+                return Err(format!("call of `{name}` is an interaction: only `let x = {name}(..);`, `{name}(..);` and a tail call are in the fragment"));
+            }
+            // a function-typed parameter
+            if let Some((l, Ty::Fn(ps, r))) = self.locals.get(&name).cloned() {
+                if ps.len() != args.len() {
+                    return Err(format!("arity mismatch calling the closure `{name}`"));
+                }
+                let mut ls = vec![];
+                for (a, pt) in args.iter().zip(&ps) {
+                    let (al, at) = self.expr(a, pt)?;
+                    if !pt.compatible(&at) {
+                        return Err(format!("argument of type {:?} where the closure `{name}` expects {:?}", at, pt));
+                    }
+                    ls.push(al);
+                }
+                return Ok((L::App(l, ls), *r));
+            }
             if args.len() == 1 {
                 let lt = if name == "Self" { self.self_ty.clone() } else { self.type_of_segment(&name) };
                 if let Some(Ty::Adt(an, _)) = &lt {
@@ -787,16 +945,26 @@ impl<'a> Ctx<'a> {
                 };
             }
         }
+        if self.is_tree_expr(&m.receiver) {
+            return Err(format!("`{}` is an interaction with the tree: only `let x = tree.m(..);`, `tree.m(..);` and a tail call are in the fragment", quote::quote!(#m)));
+        }
         let (recv, rt) = self.expr(&m.receiver, &Ty::Unknown)?;
+        // a style seen through one trait (`style: &impl CoreStyle`): only that trait's getters
+        let view: Option<String> = match strip(&m.receiver) {
+            Expr::Path(p) => p.path.get_ident().and_then(|i| self.views.get(&i.to_string()).cloned()),
+            _ => None,
+        };
         // translated methods first
         if let Some(sigs) = self.w.fns.get(&(rt.head(), name.clone())) {
+            let sigs: Vec<FnSig> = sigs.iter().filter(|s| view.as_ref().map(|v| s.lean.contains(&format!(".{v}."))).unwrap_or(true)).cloned().collect();
             for sig in sigs.clone() {
                 if let Some(st) = &sig.self_ty {
-                    if st.compatible(&rt) && sig.params.len() + sig.dropped == args.len() && !sig.mut_self {
+                    let mut sub = HashMap::new();
+                    if st.unify(&rt, &mut sub) && sig.params.len() + sig.dropped == args.len() && !sig.mut_self && !sig.prog {
                         // overloads (MaybeMath): the first argument's type selects the impl
-                        if sigs.len() > 1 && !args.is_empty() {
-                            if let Ok((_, at)) = self.expr(args[0], &sig.params[0].1) {
-                                if !sig.params[0].1.compatible(&at) {
+                        if sigs.len() > 1 && !args.is_empty() && !sig.params.is_empty() && !matches!(sig.params[0].1, Ty::Fn(..)) {
+                            if let Ok((_, at)) = self.expr(args[0], &sig.params[0].1.subst_vars(&sub)) {
+                                if !sig.params[0].1.subst_vars(&sub).compatible(&at) {
                                     continue;
                                 }
                             } else {
@@ -804,10 +972,13 @@ impl<'a> Ctx<'a> {
                             }
                         }
                         let mut ls = vec![recv];
-                        ls.extend(self.args_of(&sig, &args, &format!("{}::{name}", rt.head()))?);
-                        return Ok((self.apply_sig(&sig, ls), sig.ret.clone()));
+                        ls.extend(self.args_of_s(&sig, &args, &format!("{}::{name}", rt.head()), &mut sub)?);
+                        return Ok((self.apply_sig(&sig, ls), sig.ret.subst_vars(&sub)));
                     }
                 }
+            }
+            if view.is_some() && sigs.is_empty() {
+                return Err(format!("`{name}` is not a translated getter of the trait the style is seen through"));
             }
         }
         let one = |s: &mut Self, pt: &Ty| -> R<(L, Ty)> {
@@ -839,7 +1010,7 @@ impl<'a> Ctx<'a> {
                     Ty::Opt(x) => (**x).clone(),
                     _ => Ty::Unknown,
                 };
-                let (f, ft) = self.closure(args[0], &[(**t).clone()], &exp_ret)?;
+                let (f, ft) = self.fn_value(args[0], &[(**t).clone()], &exp_ret)?;
                 Ok((L::app("Option.map", vec![f, recv]), Ty::opt(ft)))
             }
             (Ty::Opt(t), "filter") if args.len() == 1 => {
@@ -863,6 +1034,18 @@ impl<'a> Ctx<'a> {
             }
             _ => Err(format!("method `{name}` on {:?} is not in the whitelist", rt)),
         }
+    }
+
+    /// the expression is the tree parameter of a function translated in interaction form
+    pub(crate) fn is_tree_expr(&self, e: &Expr) -> bool {
+        match (strip(e), self.prog.as_ref().and_then(|p| p.tree_param.as_ref())) {
+            (Expr::Path(p), Some(t)) => p.path.is_ident(t.as_str()),
+            _ => false,
+        }
+    }
+    /// a closure parameter whose calls are interactions
+    pub(crate) fn is_interaction_name(&self, n: &str) -> bool {
+        self.sub_programs.contains_key(n) || self.prog.as_ref().map(|p| p.closures.contains_key(n)).unwrap_or(false)
     }
 
     /// `self.0.<m>()` → Some(m)
@@ -949,6 +1132,55 @@ impl<'a> Ctx<'a> {
             Pat::Tuple(tp) => {
                 let alts = self.tuple_pat(tp, t, rename)?;
                 Ok(alts.into_iter().map(|v| format!("({})", v.join(", "))).collect())
+            }
+            // `Size { width: Some(w), height: Some(h) }`, `LayoutInput { run_mode, .. }`: the constructor applied to one
+            // pattern per field of the registered structure, in its order (`_` for the fields covered by `..`)
+            Pat::Struct(ps) => {
+                if ps.qself.is_some() {
+                    return Err("qualified struct pattern".into());
+                }
+                let tname = path_segs(&ps.path).last().unwrap().clone();
+                let ty0 = self.type_of_segment(&tname).ok_or(format!("struct pattern of unknown type {tname}"))?;
+                let (an, args) = match ty0.join(t) {
+                    Ty::Adt(n, a) => (n, a),
+                    _ => return Err("struct pattern of a non-struct".into()),
+                };
+                if let Ty::Adt(m, _) = t {
+                    if *m != an {
+                        return Err(format!("struct pattern of {an} against a value of type {m}"));
+                    }
+                }
+                let adt = self.w.adt(&an).ok_or("unknown adt")?.clone();
+                let fields = match &adt.kind {
+                    AdtKind::Struct(f) => f.clone(),
+                    _ => return Err(format!("{an} is not a struct")),
+                };
+                for fp in &ps.fields {
+                    let n = match &fp.member {
+                        syn::Member::Named(n) => n.to_string(),
+                        _ => return Err("positional struct pattern".into()),
+                    };
+                    if !fields.iter().any(|f| f.rust == n) {
+                        return Err(format!("struct {an} has no known field `{n}`"));
+                    }
+                }
+                let mut alts: Vec<String> = vec![format!("{}.mk", adt.lean)];
+                for f in &fields {
+                    let fp = ps.fields.iter().find(|fp| matches!(&fp.member, syn::Member::Named(n) if *n == f.rust));
+                    let subs = match fp {
+                        Some(fp) => {
+                            if !self.env.enabled(&fp.attrs)? {
+                                vec!["_".to_string()]
+                            } else {
+                                self.pat(&fp.pat, &f.ty.subst(&args), rename)?
+                            }
+                        }
+                        None if ps.rest.is_some() => vec!["_".to_string()],
+                        None => return Err(format!("struct pattern of {an} lacks field `{}`", f.rust)),
+                    };
+                    alts = alts.iter().flat_map(|a| subs.iter().map(move |s| format!("{a} {s}"))).collect();
+                }
+                Ok(alts.into_iter().map(|a| format!("({a})")).collect())
             }
             Pat::Lit(l) => match &*l.lit.clone().into_token_stream_string() {
                 s if s.chars().all(|c| c.is_ascii_digit()) => Ok(vec![s.to_string()]),
